@@ -1028,6 +1028,26 @@ def LockStep (s : Sys F) : Ev → Prop
     ∀ now, absRoute (step s (.stamp idx w ld cb ct)).1 now = absRoute s now ∧
       absSent (step s (.stamp idx w ld cb ct)).1 now = absSent s now
 
+  -- `sync_conn_timeout` is no reference event either: the abstraction reads the CONFIGURED timeout, never the
+  -- links' copies, so windows and both abstractions are unchanged
+  | .syncTimeout =>
+    windowsOf (step s .syncTimeout).1 = windowsOf s ∧
+    ∀ now, absRoute (step s .syncTimeout).1 now = absRoute s now ∧
+      absSent (step s .syncTimeout).1 now = absSent s now
+
+/-- `sync_conn_timeout` changes neither the windows nor the reference abstraction of the state. -/
+theorem sync_abs (s : Sys F) :
+    windowsOf (step s .syncTimeout).1 = windowsOf s ∧
+    ∀ now, absRoute (step s .syncTimeout).1 now = absRoute s now ∧
+      absSent (step s .syncTimeout).1 now = absSent s now := by
+  have key : ∀ {β : Type} (f : FLink F → β),
+      (∀ (l : FLink F), f { l with connTimeoutMs := s.cfg.connTimeoutMs } = f l) →
+      (s.links.map fun l => ({ l with connTimeoutMs := s.cfg.connTimeoutMs } : FLink F)).map f = s.links.map f := by
+    intro β f hf
+    rw [List.map_map]
+    exact List.map_congr_left (fun l _ => hf l)
+  refine ⟨key _ (fun _ => rfl), fun now => ⟨key _ (fun _ => rfl), key _ (fun _ => rfl)⟩⟩
+
 /-- A verdict stamp changes neither the windows nor the reference abstraction of the state. -/
 theorem stamp_abs (s : Sys F) (idx : Nat) (w ld cb : Bool) (ct : Nat) :
     windowsOf (step s (.stamp idx w ld cb ct)).1 = windowsOf s ∧
@@ -1075,6 +1095,7 @@ theorem C10_lockstep_step (B : Nat) (s : Sys F) (e : Ev) (h : RunInv B s) (hB : 
   | failNext c => rfl
   | failBind c => rfl
   | stamp idx w ld cb ct => exact stamp_abs s idx w ld cb ct
+  | syncTimeout => exact sync_abs s
 
 omit [Scalar F] in
 /-- `RunInv`, `KeepsMode`, `runS`, spelled out (definition check). -/
@@ -1086,10 +1107,10 @@ theorem C10_runInv_def (B : Nat) (s : Sys F) :
     (∀ now pkt, KeepsMode (.client now pkt)) ∧ (∀ now c d, KeepsMode (.uplink now c d)) ∧
     (∀ now, KeepsMode (.flush now)) ∧ (∀ now, KeepsMode (.hk now)) ∧ (∀ d, KeepsMode (.crit d)) ∧
     (∀ c, KeepsMode (.failNext c)) ∧ (∀ c, KeepsMode (.failBind c)) ∧
-    (∀ i w ld cb ct, KeepsMode (.stamp i w ld cb ct)) :=
+    (∀ i w ld cb ct, KeepsMode (.stamp i w ld cb ct)) ∧ KeepsMode .syncTimeout :=
   ⟨⟨fun h => ⟨h.pot, h.classic, h.guard, h.reg⟩, fun h => ⟨h.1, h.2.1, h.2.2.1, h.2.2.2⟩⟩,
    fun _ => Iff.rfl, fun _ _ => trivial, fun _ _ _ => trivial, fun _ => trivial, fun _ => trivial,
-   fun _ => trivial, fun _ => trivial, fun _ => trivial, fun _ _ _ _ _ => trivial⟩
+   fun _ => trivial, fun _ => trivial, fun _ => trivial, fun _ _ _ _ _ => trivial, trivial⟩
 
 /-- **Lock-step along runs** (`C10_lockstep_run`), with the reference state re-derived from the shell
 state at every event (see `C10_lockstep_step`).  Hypotheses on the INITIAL state and the mode only:
